@@ -6,6 +6,7 @@ import (
 	"github.com/ethereum/go-ethereum/common"
 	"github.com/holiman/uint256"
 	"math/big"
+	"sort"
 )
 
 type NodeType int
@@ -83,24 +84,33 @@ func NewRootKey() *StorageKey {
 	}
 }
 
-// Children returns the children of the storage key
+// sortedChildIndices returns the index keys of the children in ascending byte order,
+// so that callers never observe Go's randomised map iteration order.
+func (k *StorageKey) sortedChildIndices() []string {
+	indices := make([]string, 0, len(k.childrenIndex))
+	for index := range k.childrenIndex {
+		indices = append(indices, index)
+	}
+	sort.Strings(indices)
+	return indices
+}
+
+// Children returns the children of the storage key, ordered by their index keys
 func (k *StorageKey) Children() []*StorageKey {
-	res := make([]*StorageKey, 0, len(k.childrenIndex))
-	if len(k.childrenIndex) > 0 {
-		for _, child := range k.childrenIndex {
-			res = append(res, child)
-		}
+	indices := k.sortedChildIndices()
+	res := make([]*StorageKey, 0, len(indices))
+	for _, index := range indices {
+		res = append(res, k.childrenIndex[index])
 	}
 	return res
 }
 
-// ChildrenIndices returns the indices of the children of the storage key
+// ChildrenIndices returns the indices of the children of the storage key in ascending byte order
 func (k *StorageKey) ChildrenIndices() [][]byte {
-	res := make([][]byte, 0, len(k.childrenIndex))
-	if len(k.childrenIndex) > 0 {
-		for index := range k.childrenIndex {
-			res = append(res, []byte(index))
-		}
+	indices := k.sortedChildIndices()
+	res := make([][]byte, 0, len(indices))
+	for _, index := range indices {
+		res = append(res, []byte(index))
 	}
 	return res
 }
@@ -360,14 +370,7 @@ func (s *StateChanges) IndicesOfChanges(account common.Address, stateVarName str
 		return nil
 	}
 
-	res := make([][]byte, 0, len(key.childrenIndex))
-	if len(key.childrenIndex) > 0 {
-		for index := range key.childrenIndex {
-			res = append(res, []byte(index))
-		}
-	}
-
-	return res
+	return key.ChildrenIndices()
 }
 
 // Call records the current contract call information
